@@ -29,6 +29,10 @@ var c08Model = &vlib.Check{
 		if vlib.Chance(r, 1, 4) {
 			tree, _, _ = mdl.Macroize(r, tree, 1+r.Intn(2))
 		}
+		if vlib.Chance(r, 1, 3) {
+			// the same project structure (INCLUDE files) in both layouts
+			tree, _, _ = mdl.Split(r, tree, 1+r.Intn(3), 1+r.Intn(3))
+		}
 		l1 := mdl.PlainLayout()
 		if vlib.Chance(r, 1, 2) {
 			l1 = mdl.RandomLayout(r)
